@@ -180,7 +180,7 @@ def nontrivial_stats(files, limit_samples=4):
 
 def validate(prop, files, rep, formulas=None):
     formulas = FORMULAS[prop] if formulas is None else formulas
-    res = tlcrun.validate_traces("TraceMachine", dict(FLAGS, QueueLimit=1000), files,
+    res = tlcrun.validate_traces("TraceMachine", dict(FLAGS, QueueLimit=4), files,
                                  timeout=3000)
     lines = ntx = 0
     for r in res:
